@@ -146,7 +146,7 @@ func runC11(c *Ctx) {
 			c11OneSection(c, g, an)
 		}
 		if g.Type == load.ModulePath+"/internal/metrics.Collector" {
-			c11GetOrCreate(c, an)
+			c11GetOrCreate(c, an, "O-4")
 		}
 	}
 	r.Floor("O-1", "guarded accesses examined", guardedAccesses, 25)
@@ -207,7 +207,7 @@ func c11OneSection(c *Ctx, g lockset.Guarded, an *lockset.Analysis) {
 	r.Floor("O-2", "exported LRUCache methods", n, 9)
 }
 
-func c11GetOrCreate(c *Ctx, an *lockset.Analysis) {
+func c11GetOrCreate(c *Ctx, an *lockset.Analysis, rule string) {
 	r := c.R
 	n := 0
 	for _, a := range an.Accesses {
@@ -233,9 +233,9 @@ func c11GetOrCreate(c *Ctx, an *lockset.Analysis) {
 				good = true
 			}
 		}
-		r.Check(good && a.Mode == lockset.Excl, "O-4", key, c.P.Pos(mu.Pos()), "store under exclusive lock after a failed re-lookup of the same key under that lock", "registry store is not protected by a re-check of the same key under the exclusive lock: two goroutines can create two metrics for one series")
+		r.Check(good && a.Mode == lockset.Excl, rule, key, c.P.Pos(mu.Pos()), "store under exclusive lock after a failed re-lookup of the same key under that lock", "registry store is not protected by a re-check of the same key under the exclusive lock: two goroutines can create two metrics for one series")
 	}
-	r.Floor("O-4", "registry stores", n, 4)
+	r.Floor(rule, "registry stores", n, 4)
 }
 
 func c11Atomics(c *Ctx) {
